@@ -50,6 +50,7 @@ class Opts:
         self.steps_out_of_file_order = False  # ProfilerStep annotations are written after the operators, latest first
         self.n_extra_ops = None  # number of run-specific operator names (None: 0-3); large values give a wide vocabulary
         self.p_dual_cat = 0.0  # an operator name also occurs as a user_annotation (same name, two categories)
+        self.corr_zero_index = None  # n: the n-th correlation id handed out on rank 0 is 0
         self.corr_start = 100  # correlation ids are counted from corr_start + 1 (-1: the first pair of the file carries id 0, as runs numbered from 0 do)
         self.main_tid = 1  # thread id of the thread holding the profiler steps
         self.other_tids_below = False  # the other host threads get SMALLER ids than the main thread (their call stacks are then built first)
@@ -79,7 +80,12 @@ def gen_rank(rng: random.Random, o: Opts, rank: int = 0) -> List[Dict[str, Any]]
     stream_free = {7 + s: o.base for s in range(o.n_streams)}
     kernels: List[Dict[str, Any]] = []
 
+    ncalls = [0]
+
     def new_corr():
+        ncalls[0] += 1
+        if o.corr_zero_index is not None and ncalls[0] == o.corr_zero_index and rank == 0:
+            return 0  # one pair somewhere in the middle of the file carries correlation id 0 (ids need not be handed out in time order)
         corr[0] += 1
         return corr[0]
 
@@ -208,6 +214,12 @@ def gen_trace_set(seed: int, n_ranks: int = 1, **kw) -> Dict[int, List[Dict[str,
         # every third seed: a file whose entries all carry a duration (the loader then keeps `dur`, ids and links in the
         # narrowest integer types instead of float64 - a different storage class for every analysis)
         o.noncomplete_events = seed % 3 != 0
+    if "corr_start" not in kw and "corr_zero_index" not in kw and seed % 5 == 4:
+        # every fifth seed: one host call / device activity pair carries correlation id 0 (a legitimate id) - the first pair of the file or a later one
+        if seed % 2:
+            o.corr_start = -1
+        else:
+            o.corr_zero_index = 3 + seed % 4
     out = {}
     for r in range(n_ranks):
         o2 = Opts(**dict(o.__dict__))
@@ -219,3 +231,18 @@ def gen_trace_set(seed: int, n_ranks: int = 1, **kw) -> Dict[int, List[Dict[str,
 def complete_events(events: List[Dict[str, Any]]) -> List[Tuple[int, Dict[str, Any]]]:
     """(file position, event) of the entries the loader must keep: a duration, a category, category != 'Trace'."""
     return [(i, e) for i, e in enumerate(events) if e.get("dur") is not None and e.get("cat") is not None and e.get("cat") != "Trace"]
+
+
+def wide_narrow_set(seed: int, **kw) -> Dict[int, List[Dict[str, Any]]]:
+    """Two ranks of one job whose vocabularies differ in size: rank 0 carries 200 operator names of its own (and launches kernels through
+    cudaLaunchKernel only), rank 1 is a small file whose entries all have a duration (the loader then stores its ids in the narrowest integer
+    type) and which uses names rank 0 never uses - so rank 1's symbols get trace-wide ids beyond 127 when the ranks are merged."""
+    r0 = gen_trace_set(seed, n_ranks=1, **kw)[0]
+    t_first = min(e["ts"] for e in r0 if e.get("ph") == "X")
+    for k in range(200):
+        r0.append(synth.host_op(f"wide::op_{k:04d}", t_first - 3 * (k + 1), 2, tid=77))
+    for e in r0:
+        if e.get("cat") == "cuda_runtime" and e.get("name") in ("cudaLaunchKernelExC", "cudaMemcpyAsync", "cudaMemsetAsync"):
+            e["name"] = "cudaLaunchKernel"
+    r1 = gen_trace_set(seed + 1, n_ranks=1, **{**kw, "noncomplete_events": False, "n_extra_ops": 3})[0]
+    return {0: r0, 1: r1}
